@@ -6,6 +6,7 @@ import LolHtml.Lane.MemTs
 import LolHtml.Lane.Scope
 import LolHtml.Lane.Hash
 import LolHtml.Lane.Enc
+import LolHtml.Lane.Esc
 
 namespace LolHtml.Lane
 
@@ -18,7 +19,8 @@ def registry : List (String × (String → String)) :=
     ("memts", MemTs.run),
     ("scope", Scope.run),
     ("hash", Hash.run),
-    ("enc", Enc.run) ]
+    ("enc", Enc.run),
+    ("esc", Esc.run) ]
 
 def find (name : String) : Option (String → String) :=
   (registry.find? (·.1 == name)).map (·.2)
